@@ -206,6 +206,11 @@ def write_remap_cases(path, seed, tier):
         out_g = enc_graph(n, keep, directed, {x: lab[x] for x in keep})
         out_g["tot"] = 0
         out.append({"k": "subgraphD" if directed else "subgraphU", "g": g, "S": S, "out": out_g})
+        boundary = any(x[0] in S and x[1] not in S for x in e)
+        if boundary and not any("repeat" in c and c["k"] == out[-1]["k"] for c in out[:-1]):
+            # call-history independence (one directed, one undirected case whose subset has edges
+            # leaving it): 2^16 + some further calls (thorough: 2^17 + some)
+            out[-1]["repeat"] = 66000 if tier == "quick" else 132000
     with open(path, "w") as f:
         for c in out:
             f.write(json.dumps(c) + "\n")
@@ -214,7 +219,8 @@ def write_remap_cases(path, seed, tier):
 
 def write_big_conv_cases(path, seed, tier):
     rng = random.Random(seed + 29)
-    sizes = [(26, 90), (40, 200)] if tier == "quick" else [(26, 90), (40, 200), (70, 600), (33, 400), (64, 900)]
+    sizes = [(26, 90), (40, 200), (130, 900)] if tier == "quick" else [(26, 90), (40, 200), (70, 600), (33, 400), (64, 900),
+                                                                         (130, 900), (200, 3000), (150, 600)]
     with open(path, "w") as f:
         for (n, m) in sizes:
             f.write(json.dumps({"k": "big_conv", "n": n, "m": m, "seed": rng.randint(1, 10 ** 6), "list": 150}) + "\n")
